@@ -44,7 +44,7 @@ Qed.
 
 (* ------------------------------------------------------------------ is_awaiting flags are restored *)
 Section Flags.
-  Variables (bound : nat) (spec : bool) (G : graph).
+  Variables (bound bound2 : nat) (isp : nat -> bool) (spec : bool) (G : graph).
 
   Definition keeps_flags (st : state) (r : res) : Prop :=
     match r with RFuel => True | RVal _ st' | RRaise _ st' => awaiting st' = awaiting st end.
@@ -62,28 +62,28 @@ Section Flags.
     destruct (eval_deps rec ds (z :: acc) s'); auto; congruence.
   Qed.
 
-  Lemma wait_top_flags : forall fuel st seen i, keeps_flags st (wait_top bound spec G fuel st seen i).
+  Lemma wait_top_flags : forall fuel st seen p i, keeps_flags st (wait_top bound bound2 isp spec G fuel st seen p i).
   Proof.
-    induction fuel as [|f IH]; intros st seen i; simpl; auto.
+    induction fuel as [|f IH]; intros st seen p i; simpl; auto.
     destruct (nth_error G i) as [nd|]; simpl; auto.
-    destruct ((bound <=? length seen) || existsb (Nat.eqb i) seen); simpl; auto.
+    destruct (stop_check bound bound2 seen p i); simpl; auto.
     destruct (is_await st i) eqn:Ea; simpl; auto.
     assert (R : forall s, awaiting s = awaiting (set_await st i true) -> awaiting (set_await s i false) = awaiting st).
     { intros s E. unfold set_await in *; simpl in *. rewrite E. apply set_nth_restore. exact Ea. }
     assert (K : forall v s, awaiting s = awaiting (set_await st i true) ->
               keeps_flags st match v with
                              | NVal z => RVal z (set_await s i false)
-                             | NFwd j => wait_top bound spec G f (set_await s i false) (i :: seen) j end).
+                             | NFwd j => wait_top bound bound2 isp spec G f (set_await s i false) (i :: seen) (next_p isp p i j) j end).
     { intros [z|j] s E; simpl; [apply R; exact E|].
-      pose proof (IH (set_await s i false) (i :: seen) j) as Hj.
-      destruct (wait_top bound spec G f (set_await s i false) (i :: seen) j); simpl in *; auto;
+      pose proof (IH (set_await s i false) (i :: seen) (next_p isp p i j) j) as Hj.
+      destruct (wait_top bound bound2 isp spec G f (set_await s i false) (i :: seen) (next_p isp p i j) j); simpl in *; auto;
         rewrite Hj; apply R; exact E. }
     destruct nd as [v|deps g|].
     - apply K. reflexivity.
     - destruct (get_settled (set_await st i true) i) as [v|].
       + apply K. reflexivity.
-      + pose proof (eval_deps_flags (fun s d => wait_top bound spec G f s [] d) deps [] (set_await st i true)
-                      (fun s d => IH s [] d)) as Hd.
+      + pose proof (eval_deps_flags (fun s d => wait_top bound bound2 isp spec G f s [] 0 d) deps [] (set_await st i true)
+                      (fun s d => IH s [] 0 d)) as Hd.
         destruct (eval_deps _ deps [] (set_await st i true)) as [vals s2|e s2|]; simpl.
         * apply (K (g vals) (set_settled s2 i (g vals))). simpl. exact Hd.
         * apply R. exact Hd.
@@ -94,7 +94,7 @@ End Flags.
 
 (* ------------------------------------------------------------------ termination *)
 Section Termination.
-  Variables (bound : nat) (spec : bool) (G : graph).
+  Variables (bound bound2 : nat) (isp : nat -> bool) (spec : bool) (G : graph).
   Let B := bound + 2.
 
   Lemma eval_deps_nofuel rec deps : forall acc st,
@@ -108,16 +108,16 @@ Section Termination.
     apply IH; auto. intros s d' E. apply H. congruence.
   Qed.
 
-  Lemma wait_top_nofuel : forall fuel st seen i,
+  Lemma wait_top_nofuel : forall fuel st seen p i,
     length (awaiting st) = length G ->
     fuel > nfree (awaiting st) * B + (bound + 1 - length seen) ->
-    wait_top bound spec G fuel st seen i <> RFuel.
+    wait_top bound bound2 isp spec G fuel st seen p i <> RFuel.
   Proof.
-    induction fuel as [|f IH]; intros st seen i L F; [lia|]. simpl.
+    induction fuel as [|f IH]; intros st seen p i L F; [lia|]. simpl.
     destruct (nth_error G i) as [nd|] eqn:En; [|discriminate].
-    destruct ((bound <=? length seen) || existsb (Nat.eqb i) seen) eqn:Es; [discriminate|].
+    destruct (stop_check bound bound2 seen p i) eqn:Es; [discriminate|].
     destruct (is_await st i) eqn:Ea; [discriminate|].
-    apply orb_false_iff in Es. destruct Es as [Es _]. apply Nat.leb_gt in Es.
+    unfold stop_check in Es. apply orb_false_iff in Es. destruct Es as [Es _]. apply orb_false_iff in Es. destruct Es as [Es _]. apply Nat.leb_gt in Es.
     assert (Li : i < length (awaiting st)).
     { rewrite L. apply nth_error_Some. congruence. }
     pose proof (nfree_set_true (awaiting st) i Li Ea) as Hn.
@@ -128,16 +128,16 @@ Section Termination.
     assert (K : forall v s, awaiting s = awaiting st1 ->
               match v with
               | NVal z => RVal z (set_await s i false)
-              | NFwd j => wait_top bound spec G f (set_await s i false) (i :: seen) j end <> RFuel).
+              | NFwd j => wait_top bound bound2 isp spec G f (set_await s i false) (i :: seen) (next_p isp p i j) j end <> RFuel).
     { intros [z|j] s E; [discriminate|]. apply IH.
       - rewrite (Back s E). exact L.
       - rewrite (Back s E). simpl. lia. }
     destruct nd as [v|deps g|].
     - apply K. reflexivity.
     - destruct (get_settled st1 i) as [v|]; [apply K; reflexivity|].
-      pose proof (eval_deps_flags (fun s d => wait_top bound spec G f s [] d) deps [] st1
-                    (fun s d => wait_top_flags bound spec G f s [] d)) as Hd.
-      assert (NF : eval_deps (fun s d => wait_top bound spec G f s [] d) deps [] st1 <> DFuel).
+      pose proof (eval_deps_flags (fun s d => wait_top bound bound2 isp spec G f s [] 0 d) deps [] st1
+                    (fun s d => wait_top_flags bound bound2 isp spec G f s [] 0 d)) as Hd.
+      assert (NF : eval_deps (fun s d => wait_top bound bound2 isp spec G f s [] 0 d) deps [] st1 <> DFuel).
       { apply eval_deps_nofuel.
         - intros s d. apply wait_top_flags.
         - intros s d E. apply IH.
@@ -153,7 +153,7 @@ Section Termination.
   Theorem wait_terminates_lemma fuel st i :
     length (awaiting st) = length G ->
     fuel >= fuel_bound bound G ->
-    wait bound spec G fuel st i <> RFuel.
+    wait bound bound2 isp spec G fuel st i <> RFuel.
   Proof.
     intros L F. unfold wait. apply wait_top_nofuel; [exact L|].
     unfold fuel_bound in F. simpl. pose proof (nfree_le (awaiting st)) as N. rewrite L in N.
@@ -223,7 +223,7 @@ Section Meaning.
     revert k H. generalize G as l. induction l as [|x xs IH]; intros [|k] H; simpl in H; try discriminate. eauto.
   Qed.
 
-  Variables (bound : nat) (spec : bool).
+  Variables (bound bound2 : nat) (isp : nat -> bool) (spec : bool).
 
   Definition sound_res (i : nat) (r : res) : Prop :=
     match r with
@@ -250,22 +250,22 @@ Section Meaning.
       simpl. apply values_of_app; [exact V|]. constructor; [exact Hv|constructor].
   Qed.
 
-  Lemma wait_top_sound : forall fuel st seen i,
-    settled_sound st -> sound_res i (wait_top bound spec G fuel st seen i).
+  Lemma wait_top_sound : forall fuel st seen p i,
+    settled_sound st -> sound_res i (wait_top bound bound2 isp spec G fuel st seen p i).
   Proof.
-    induction fuel as [|f IH]; intros st seen i S; simpl; auto.
+    induction fuel as [|f IH]; intros st seen p i S; simpl; auto.
     destruct (nth_error G i) as [nd|] eqn:En; simpl; auto.
-    destruct ((bound <=? length seen) || existsb (Nat.eqb i) seen); simpl; auto.
+    destruct (stop_check bound bound2 seen p i); simpl; auto.
     destruct (is_await st i); simpl; auto.
     assert (K : forall v s, settled_sound s ->
               (forall z, v = NVal z -> value_of i z) ->
               (forall j z, v = NFwd j -> value_of j z -> value_of i z) ->
               sound_res i match v with
                           | NVal z => RVal z (set_await s i false)
-                          | NFwd j => wait_top bound spec G f (set_await s i false) (i :: seen) j end).
+                          | NFwd j => wait_top bound bound2 isp spec G f (set_await s i false) (i :: seen) (next_p isp p i j) j end).
     { intros [z|j] s Ss Hz Hj; simpl; [split; auto|].
-      pose proof (IH (set_await s i false) (i :: seen) j Ss) as R.
-      destruct (wait_top bound spec G f (set_await s i false) (i :: seen) j); simpl in *; auto.
+      pose proof (IH (set_await s i false) (i :: seen) (next_p isp p i j) j Ss) as R.
+      destruct (wait_top bound bound2 isp spec G f (set_await s i false) (i :: seen) (next_p isp p i j) j); simpl in *; auto.
       destruct R as [R1 R2]. split; eauto. }
     destruct nd as [v|deps g|].
     - apply K; [exact S| |].
@@ -277,8 +277,8 @@ Section Meaning.
         apply K; [exact S| |].
         * intros z E; subst. eapply VFn; eauto.
         * intros j z E Hj; subst. eapply VFnF; eauto.
-      + pose proof (eval_deps_sound (fun s d => wait_top bound spec G f s [] d) deps [] [] (set_await st i true)
-                      (fun s d Ss => IH s [] d Ss) S VNil) as Hd.
+      + pose proof (eval_deps_sound (fun s d => wait_top bound bound2 isp spec G f s [] 0 d) deps [] [] (set_await st i true)
+                      (fun s d Ss => IH s [] 0 d Ss) S VNil) as Hd.
         destruct (eval_deps _ deps [] (set_await st i true)) as [vals s2|e s2|]; simpl; auto.
         simpl in Hd. destruct Hd as [Hv Hs].
         apply K.
@@ -338,17 +338,26 @@ Section Cycle.
   Definition reaches_cycle (i : nat) : Prop := exists c, (c = i \/ reach i c) /\ reach c c.
   Definition long_forward (n : nat) : Prop := exists seen i, n <= length seen /\ fchain_to seen i.
 
-  Variables (bound : nat) (spec : bool).
+  Variables (bound bound2 : nat) (isp : nat -> bool) (spec : bool).
 
-  Definition cyc_inv (st : state) (seen : list nat) (i : nat) : Prop :=
+  (* number of steps "a polynomial yields a polynomial" along the chain seen -> i (what polynomial_steps counts) *)
+  Fixpoint pcount (seen : list nat) (i : nat) : nat :=
+    match seen with
+    | [] => 0
+    | s :: rest => (if isp s && isp i then 1 else 0) + pcount rest s
+    end.
+  Definition long_poly (n : nat) : Prop := exists seen i, n <= pcount seen i /\ fchain_to seen i.
+  Definition too_long : Prop := long_forward bound \/ long_poly bound2.
+
+  Definition cyc_inv (st : state) (seen : list nat) (p i : nat) : Prop :=
     settled_sound G st /\
     (forall k, is_await st k = true -> reach k i) /\
     (forall k, In k seen -> reach k i) /\
-    fchain_to seen i.
+    fchain_to seen i /\ p = pcount seen i.
 
   Definition cyc_res (i : nat) (r : res) : Prop :=
     match r with
-    | RRaise ECycle _ => reaches_cycle i \/ long_forward bound
+    | RRaise ECycle _ => reaches_cycle i \/ too_long
     | _ => True
     end.
 
@@ -377,14 +386,15 @@ Section Cycle.
     - inversion H; subst. exists d, st. repeat split; auto. left; reflexivity.
   Qed.
 
-  Lemma wait_top_cycle : forall fuel st seen i,
-    cyc_inv st seen i -> cyc_res i (wait_top bound spec G fuel st seen i).
+  Lemma wait_top_cycle : forall fuel st seen p i,
+    cyc_inv st seen p i -> cyc_res i (wait_top bound bound2 isp spec G fuel st seen p i).
   Proof.
-    induction fuel as [|f IH]; intros st seen i (Ss & Ia & Is & If); simpl; auto.
+    induction fuel as [|f IH]; intros st seen p i (Ss & Ia & Is & If & Ip); simpl; auto.
     destruct (nth_error G i) as [nd|] eqn:En; simpl; auto.
-    destruct ((bound <=? length seen) || existsb (Nat.eqb i) seen) eqn:Es; simpl.
-    { apply orb_true_iff in Es. destruct Es as [Es|Es].
-      - right. exists seen, i. split; [apply Nat.leb_le; exact Es|exact If].
+    destruct (stop_check bound bound2 seen p i) eqn:Es; simpl.
+    { unfold stop_check in Es. apply orb_true_iff in Es. destruct Es as [Es|Es]; [apply orb_true_iff in Es; destruct Es as [Es|Es]|].
+      - right. left. exists seen, i. split; [apply Nat.leb_le; exact Es|exact If].
+      - right. right. exists seen, i. split; [apply Nat.leb_le in Es; subst p; exact Es|exact If].
       - left. apply existsb_exists in Es. destruct Es as [k [Hk Ek]]. apply Nat.eqb_eq in Ek. subst k.
         exists i. split; auto. }
     destruct (is_await st i) eqn:Ea; simpl.
@@ -394,30 +404,31 @@ Section Cycle.
               (forall j, v = NFwd j -> fedge i j) ->
               cyc_res i match v with
                         | NVal z => RVal z (set_await s i false)
-                        | NFwd j => wait_top bound spec G f (set_await s i false) (i :: seen) j end).
+                        | NFwd j => wait_top bound bound2 isp spec G f (set_await s i false) (i :: seen) (next_p isp p i j) j end).
     { intros [z|j] s E Sss Hf; simpl; auto.
       assert (Ef : fedge i j) by (apply Hf; reflexivity).
       assert (Ee : edge i j) by (left; exact Ef).
       assert (Aw : awaiting (set_await s i false) = awaiting st).
       { unfold set_await in *; simpl in *. rewrite E. apply set_nth_restore. exact Ea. }
-      pose proof (IH (set_await s i false) (i :: seen) j) as R.
-      destruct (wait_top bound spec G f (set_await s i false) (i :: seen) j) as [z s'|[| |] s'|]; simpl in R |- *; auto.
+      pose proof (IH (set_await s i false) (i :: seen) (next_p isp p i j) j) as R.
+      destruct (wait_top bound bound2 isp spec G f (set_await s i false) (i :: seen) (next_p isp p i j) j) as [z s'|[| |] s'|]; simpl in R |- *; auto.
       destruct R as [R|R]; auto.
       - split; [exact Sss|]. split; [|split].
         + intros k Hk. unfold is_await in Hk. rewrite Aw in Hk. eapply reachS; [apply Ia; exact Hk|exact Ee].
         + intros k [Hk|Hk]; [subst; apply reach1; exact Ee | eapply reachS; [apply Is; exact Hk|exact Ee]].
-        + simpl. split; [exact Ef|exact If].
+        + simpl. split; [split; [exact Ef|exact If]|].
+          unfold next_p. subst p. destruct (isp i && isp j); simpl; reflexivity.
       - left. eapply reaches_cycle_step; eauto. }
     destruct nd as [v|deps g|].
-    - apply K; auto. intros j E. subst. unfold fedge. rewrite En. reflexivity.
+    - apply K; auto. intros j E. subst v. unfold fedge. rewrite En. reflexivity.
     - destruct (get_settled (set_await st i true) i) as [v|] eqn:Eg.
-      + apply K; auto. intros j E. subst.
+      + apply K; auto. intros j E. subst v.
         destruct (Ss i (NFwd j) Eg) as (deps' & g' & vals & E1 & E2 & E3).
-        unfold fedge. rewrite En. assert (g' = g) by congruence. subst. eauto.
-      + pose proof (eval_deps_flags (fun s d => wait_top bound spec G f s [] d) deps [] (set_await st i true)
-                      (fun s d => wait_top_flags bound spec G f s [] d)) as Hd.
-        pose proof (eval_deps_sound G (fun s d => wait_top bound spec G f s [] d) deps [] [] (set_await st i true)
-                      (fun s d Sx => wait_top_sound G bound spec f s [] d Sx) Ss (VNil G)) as Hs.
+        unfold fedge. rewrite En. assert (g' = g) by congruence. subst g'. eauto.
+      + pose proof (eval_deps_flags (fun s d => wait_top bound bound2 isp spec G f s [] 0 d) deps [] (set_await st i true)
+                      (fun s d => wait_top_flags bound bound2 isp spec G f s [] 0 d)) as Hd.
+        pose proof (eval_deps_sound G (fun s d => wait_top bound bound2 isp spec G f s [] 0 d) deps [] [] (set_await st i true)
+                      (fun s d Sx => wait_top_sound G bound bound2 isp spec f s [] 0 d Sx) Ss (VNil G)) as Hs.
         destruct (eval_deps _ deps [] (set_await st i true)) as [vals s2|e s2|] eqn:Ed; simpl; auto.
         * destruct Hs as [Hv Hs2]. apply K; auto.
           -- intros k v Hk. unfold get_settled, set_settled in Hk. simpl in Hk.
@@ -427,12 +438,12 @@ Section Cycle.
           -- intros j E. unfold fedge. rewrite En. eauto.
         * destruct e; auto.
           destruct (eval_deps_raise _ deps [] (set_await st i true) ECycle s2
-                      (fun s d => wait_top_flags bound spec G f s [] d)
-                      (fun s d Sx => wait_top_sound G bound spec f s [] d Sx) Ss Ed) as (d & s & Hin & Haw & Hss & Hr).
+                      (fun s d => wait_top_flags bound bound2 isp spec G f s [] 0 d)
+                      (fun s d Sx => wait_top_sound G bound bound2 isp spec f s [] 0 d Sx) Ss Ed) as (d & s & Hin & Haw & Hss & Hr).
           assert (Ee : edge i d) by (right; unfold dedge; rewrite En; exact Hin).
-          pose proof (IH s [] d) as R. rewrite Hr in R. simpl in R.
+          pose proof (IH s [] 0 d) as R. rewrite Hr in R. simpl in R.
           destruct R as [R|R]; auto.
-          -- split; [exact Hss|]. split; [|split; [intros k []|exact I]].
+          -- split; [exact Hss|]. split; [|split; [intros k []|split; [exact I|reflexivity]]].
              intros k Hk. unfold is_await in Hk. rewrite Haw in Hk. simpl in Hk.
              destruct (Nat.eq_dec k i) as [->|Nk]; [apply reach1; exact Ee|].
              rewrite nth_set_nth_neq in Hk by exact Nk.
@@ -443,12 +454,12 @@ Section Cycle.
 
   (* from a clean start: no flag set, nothing seen *)
   Theorem cycle_sound fuel i st' :
-    wait bound spec G fuel (init_state G) i = RRaise ECycle st' ->
-    reaches_cycle i \/ long_forward bound.
+    wait bound bound2 isp spec G fuel (init_state G) i = RRaise ECycle st' ->
+    reaches_cycle i \/ long_forward bound \/ long_poly bound2.
   Proof.
-    intros H. pose proof (wait_top_cycle fuel (init_state G) [] i) as R.
+    intros H. pose proof (wait_top_cycle fuel (init_state G) [] 0 i) as R.
     unfold wait in H. rewrite H in R. apply R.
-    split; [apply settled_sound_init|]. split; [|split; [intros k []|exact I]].
+    split; [apply settled_sound_init|]. split; [|split; [intros k []|split; [exact I|reflexivity]]].
     intros k Hk. exfalso. unfold is_await, init_state in Hk. simpl in Hk.
     revert k Hk. generalize G as l. induction l as [|x xs IHl]; intros [|k] Hk; simpl in Hk; try discriminate. eauto.
   Qed.
@@ -456,7 +467,7 @@ End Cycle.
 
 (* ------------------------------------------------------------------ acyclic graphs get a value *)
 Section Acyclic.
-  Variables (G : graph) (bound : nat) (spec : bool).
+  Variables (G : graph) (bound bound2 : nat) (isp : nat -> bool) (spec : bool).
 
   (* every reference stays inside the graph and every Promise has been settled *)
   Definition closed : Prop :=
@@ -469,21 +480,25 @@ Section Acyclic.
       end.
 
   (* rank: a strict order witnessing that there is no cycle; flen: an upper bound of the length of the chain of
-     yielded objects starting at a node, which must stay below the `seen` bound of wait() *)
-  Definition ranked (rank flen : nat -> nat) : Prop :=
+     yielded objects starting at a node, which must stay below the `seen` bound N1 of wait(); plen: an upper bound
+     of the number of polynomial-yields-polynomial steps on that chain, which must stay below N2 *)
+  Definition ranked (rank flen plen : nat -> nat) : Prop :=
     (forall i j, edge G i j -> rank j < rank i) /\
     (forall i j, fedge G i j -> flen j < flen i) /\
-    (forall i, flen i < bound).
+    (forall i, flen i < bound) /\
+    (forall i j, fedge G i j -> plen j <= plen i) /\
+    (forall i j, fedge G i j -> isp i = true -> isp j = true -> plen j < plen i) /\
+    (forall i, plen i < bound2).
 
-  Variables rank flen : nat -> nat.
+  Variables rank flen plen : nat -> nat.
   Hypothesis Hclosed : closed.
-  Hypothesis Hranked : ranked rank flen.
+  Hypothesis Hranked : ranked rank flen plen.
 
-  Definition acy_inv (st : state) (seen : list nat) (i : nat) : Prop :=
+  Definition acy_inv (st : state) (seen : list nat) (p i : nat) : Prop :=
     settled_sound G st /\ i < length G /\
     (forall k, is_await st k = true -> rank i < rank k) /\
     (forall k, In k seen -> rank i < rank k) /\
-    length seen + flen i < bound.
+    length seen + flen i < bound /\ p + plen i < bound2.
 
   Definition no_raise (r : res) : Prop := match r with RRaise _ _ => False | _ => True end.
 
@@ -502,14 +517,15 @@ Section Acyclic.
     intros s d' I1 I2 I3. apply N; auto. congruence.
   Qed.
 
-  Lemma wait_top_noraise : forall fuel st seen i,
-    acy_inv st seen i -> no_raise (wait_top bound spec G fuel st seen i).
+  Lemma wait_top_noraise : forall fuel st seen p i,
+    acy_inv st seen p i -> no_raise (wait_top bound bound2 isp spec G fuel st seen p i).
   Proof.
-    destruct Hranked as (Hr & Hf & Hb).
-    induction fuel as [|f IH]; intros st seen i (Ss & Li & Ia & Is & Il); simpl; auto.
+    destruct Hranked as (Hr & Hf & Hb & Hp1 & Hp2 & Hpb).
+    induction fuel as [|f IH]; intros st seen p i (Ss & Li & Ia & Is & Il & Ipl); simpl; auto.
     destruct (nth_error G i) as [nd|] eqn:En; [|apply nth_error_None in En; lia].
-    destruct ((bound <=? length seen) || existsb (Nat.eqb i) seen) eqn:Es; simpl.
-    { apply orb_true_iff in Es. destruct Es as [Es|Es].
+    destruct (stop_check bound bound2 seen p i) eqn:Es; simpl.
+    { unfold stop_check in Es. apply orb_true_iff in Es. destruct Es as [Es|Es]; [apply orb_true_iff in Es; destruct Es as [Es|Es]|].
+      - apply Nat.leb_le in Es. lia.
       - apply Nat.leb_le in Es. lia.
       - apply existsb_exists in Es. destruct Es as [k [Hk Ek]]. apply Nat.eqb_eq in Ek. subst k.
         specialize (Is i Hk). lia. }
@@ -519,33 +535,35 @@ Section Acyclic.
               (forall j, v = NFwd j -> fedge G i j) ->
               no_raise match v with
                        | NVal z => RVal z (set_await s i false)
-                       | NFwd j => wait_top bound spec G f (set_await s i false) (i :: seen) j end).
+                       | NFwd j => wait_top bound bound2 isp spec G f (set_await s i false) (i :: seen) (next_p isp p i j) j end).
     { intros [z|j] s E Sss Hfe; simpl; auto.
       assert (Ef : fedge G i j) by (apply Hfe; reflexivity).
       assert (Ee : edge G i j) by (left; exact Ef).
       assert (Aw : awaiting (set_await s i false) = awaiting st).
       { unfold set_await in *; simpl in *. rewrite E. apply set_nth_restore. exact Ea. }
-      apply IH. split; [exact Sss|]. split; [|split; [|split]].
+      apply IH. split; [exact Sss|]. split; [|split; [|split; [|split]]].
       - pose proof (Hclosed i nd En) as C. unfold fedge in Ef. rewrite En in Ef.
         destruct nd as [[z|k]|deps g|]; try contradiction.
         + subst. exact C.
         + destruct Ef as [vals Ev]. destruct C as [_ C]. eapply C; eauto.
       - intros k Hk. unfold is_await in Hk. rewrite Aw in Hk. specialize (Ia k Hk). specialize (Hr i j Ee). lia.
       - intros k [Hk|Hk]; [subst; apply Hr; exact Ee | specialize (Is k Hk); specialize (Hr i j Ee); lia].
-      - simpl. specialize (Hf i j Ef). lia. }
+      - simpl. specialize (Hf i j Ef). lia.
+      - unfold next_p. specialize (Hp1 i j Ef). specialize (Hp2 i j Ef).
+        destruct (isp i) eqn:Pi; destruct (isp j) eqn:Pj; simpl; try (specialize (Hp2 eq_refl eq_refl)); lia. }
     destruct nd as [v|deps g|].
     - apply K; auto. intros j E. subst. unfold fedge. rewrite En. reflexivity.
     - destruct (get_settled (set_await st i true) i) as [v|] eqn:Eg.
       + apply K; auto. intros j E. subst.
         destruct (Ss i (NFwd j) Eg) as (deps' & g' & vals & E1 & E2 & E3).
         unfold fedge. rewrite En. assert (g' = g) by congruence. subst. eauto.
-      + pose proof (eval_deps_flags (fun s d => wait_top bound spec G f s [] d) deps [] (set_await st i true)
-                      (fun s d => wait_top_flags bound spec G f s [] d)) as Hd.
-        pose proof (eval_deps_sound G (fun s d => wait_top bound spec G f s [] d) deps [] [] (set_await st i true)
-                      (fun s d Sx => wait_top_sound G bound spec f s [] d Sx) Ss (VNil G)) as Hs.
-        pose proof (eval_deps_noraise (fun s d => wait_top bound spec G f s [] d) deps [] (set_await st i true)
-                      (fun s d => wait_top_flags bound spec G f s [] d)
-                      (fun s d Sx => wait_top_sound G bound spec f s [] d Sx)) as Hn.
+      + pose proof (eval_deps_flags (fun s d => wait_top bound bound2 isp spec G f s [] 0 d) deps [] (set_await st i true)
+                      (fun s d => wait_top_flags bound bound2 isp spec G f s [] 0 d)) as Hd.
+        pose proof (eval_deps_sound G (fun s d => wait_top bound bound2 isp spec G f s [] 0 d) deps [] [] (set_await st i true)
+                      (fun s d Sx => wait_top_sound G bound bound2 isp spec f s [] 0 d Sx) Ss (VNil G)) as Hs.
+        pose proof (eval_deps_noraise (fun s d => wait_top bound bound2 isp spec G f s [] 0 d) deps [] (set_await st i true)
+                      (fun s d => wait_top_flags bound bound2 isp spec G f s [] 0 d)
+                      (fun s d Sx => wait_top_sound G bound bound2 isp spec f s [] 0 d Sx)) as Hn.
         destruct (eval_deps _ deps [] (set_await st i true)) as [vals s2|e s2|] eqn:Ed; simpl; auto.
         * destruct Hs as [Hv Hs2]. apply K; auto.
           -- intros k v Hk. unfold get_settled, set_settled in Hk. simpl in Hk.
@@ -556,7 +574,7 @@ Section Acyclic.
         * apply Hn; [|exact Ss].
           intros s d Hin Haw Hss. apply IH.
           assert (Ee : edge G i d) by (right; unfold dedge; rewrite En; exact Hin).
-          split; [exact Hss|]. split; [|split; [|split]].
+          split; [exact Hss|]. split; [|split; [|split; [|split]]].
           -- pose proof (Hclosed i _ En) as [C _]. apply C. exact Hin.
           -- intros k Hk. unfold is_await in Hk. rewrite Haw in Hk. simpl in Hk.
              specialize (Hr i d Ee).
@@ -564,26 +582,27 @@ Section Acyclic.
              rewrite nth_set_nth_neq in Hk by exact Nk. specialize (Ia k Hk). lia.
           -- intros k [].
           -- simpl. apply Hb.
+          -- simpl. apply Hpb.
     - exfalso. exact (Hclosed i _ En).
   Qed.
 
   Theorem acyclic_value fuel i :
     i < length G -> fuel >= fuel_bound bound G ->
-    exists z st', wait bound spec G fuel (init_state G) i = RVal z st' /\ value_of G i z /\
+    exists z st', wait bound bound2 isp spec G fuel (init_state G) i = RVal z st' /\ value_of G i z /\
                   awaiting st' = awaiting (init_state G).
   Proof.
     intros Li F.
-    assert (Inv : acy_inv (init_state G) [] i).
-    { destruct Hranked as (Hr & Hf & Hb).
-      split; [apply settled_sound_init|]. split; [exact Li|]. split; [|split; [intros k []|simpl; apply Hb]].
+    assert (Inv : acy_inv (init_state G) [] 0 i).
+    { destruct Hranked as (Hr & Hf & Hb & Hp1 & Hp2 & Hpb).
+      split; [apply settled_sound_init|]. split; [exact Li|]. split; [|split; [intros k []|split; [simpl; apply Hb|simpl; apply Hpb]]].
       intros k Hk. exfalso. unfold is_await, init_state in Hk. simpl in Hk.
       revert k Hk. generalize G as l. induction l as [|x xs IHl]; intros [|k] Hk; simpl in Hk; try discriminate. eauto. }
-    pose proof (wait_top_noraise fuel (init_state G) [] i Inv) as N.
-    pose proof (wait_terminates_lemma bound spec G fuel (init_state G) i) as T.
-    pose proof (wait_top_sound G bound spec fuel (init_state G) [] i (settled_sound_init G)) as S.
-    pose proof (wait_top_flags bound spec G fuel (init_state G) [] i) as Fl.
+    pose proof (wait_top_noraise fuel (init_state G) [] 0 i Inv) as N.
+    pose proof (wait_terminates_lemma bound bound2 isp spec G fuel (init_state G) i) as T.
+    pose proof (wait_top_sound G bound bound2 isp spec fuel (init_state G) [] 0 i (settled_sound_init G)) as S.
+    pose proof (wait_top_flags bound bound2 isp spec G fuel (init_state G) [] 0 i) as Fl.
     unfold wait in *.
-    destruct (wait_top bound spec G fuel (init_state G) [] i) as [z s'|e s'|]; simpl in *.
+    destruct (wait_top bound bound2 isp spec G fuel (init_state G) [] 0 i) as [z s'|e s'|]; simpl in *.
     - exists z, s'. destruct S as [S1 S2]. auto.
     - contradiction.
     - exfalso. apply T; auto. unfold init_state; simpl. rewrite !map_length. reflexivity.
@@ -591,34 +610,34 @@ Section Acyclic.
 End Acyclic.
 
 (* ------------------------------------------------------------------ try_compute *)
-Lemma try_wait_flags bound G fuel st i :
-  match try_wait bound G fuel st i with
+Lemma try_wait_flags bound bound2 isp G fuel st i :
+  match try_wait bound bound2 isp G fuel st i with
   | TVal _ st' | TSwallowed st' | TCrash st' => awaiting st' = awaiting st
   | TFuel => True
   end.
 Proof.
-  unfold try_wait, wait. pose proof (wait_top_flags bound true G fuel st [] i) as H.
-  destruct (wait_top bound true G fuel st [] i) as [z s|[| |] s|]; simpl in *; auto.
+  unfold try_wait, wait. pose proof (wait_top_flags bound bound2 isp true G fuel st [] 0 i) as H.
+  destruct (wait_top bound bound2 isp true G fuel st [] 0 i) as [z s|[| |] s|]; simpl in *; auto.
 Qed.
 
 (* while speculating, an unsettled Promise never produces the fatal Exception: only a dangling reference could *)
-Lemma spec_no_crash_closed bound G : forall fuel st seen i st',
+Lemma spec_no_crash_closed bound bound2 isp G : forall fuel st seen p i st',
   (forall k nd, nth_error G k = Some nd ->
      match nd with NConst (NFwd j) => j < length G
                  | NFn deps g => (forall d, In d deps -> d < length G) /\ (forall vals j, g vals = NFwd j -> j < length G)
                  | _ => True end) ->
   settled_sound G st -> i < length G ->
-  wait_top bound true G fuel st seen i <> RRaise ECrash st'.
+  wait_top bound bound2 isp true G fuel st seen p i <> RRaise ECrash st'.
 Proof.
-  intros fuel st seen i st' C. revert st seen i st'.
-  induction fuel as [|f IH]; intros st seen i st' Ss Li; simpl; [discriminate|].
+  intros fuel st seen p i st' C. revert st seen p i st'.
+  induction fuel as [|f IH]; intros st seen p i st' Ss Li; simpl; [discriminate|].
   destruct (nth_error G i) as [nd|] eqn:En; [|apply nth_error_None in En; lia].
-  destruct ((bound <=? length seen) || existsb (Nat.eqb i) seen); [discriminate|].
+  destruct (stop_check bound bound2 seen p i); [discriminate|].
   destruct (is_await st i); [discriminate|].
   assert (K : forall v s, settled_sound G s -> (forall j, v = NFwd j -> j < length G) ->
             match v with
             | NVal z => RVal z (set_await s i false)
-            | NFwd j => wait_top bound true G f (set_await s i false) (i :: seen) j end <> RRaise ECrash st').
+            | NFwd j => wait_top bound bound2 isp true G f (set_await s i false) (i :: seen) (next_p isp p i j) j end <> RRaise ECrash st').
   { intros [z|j] s Sss Hj; [discriminate|]. apply IH; auto. }
   pose proof (C i nd En) as Ci.
   destruct nd as [v|deps g|].
@@ -627,8 +646,8 @@ Proof.
     + apply K; auto. intros j E; subst.
       destruct (Ss i (NFwd j) Eg) as (deps' & g' & vals & E1 & E2 & E3).
       assert (g' = g) by congruence. subst. destruct Ci as [_ Ci]. eapply Ci; eauto.
-    + pose proof (eval_deps_sound G (fun s d => wait_top bound true G f s [] d) deps [] [] (set_await st i true)
-                    (fun s d Sx => wait_top_sound G bound true f s [] d Sx) Ss (VNil G)) as Hs.
+    + pose proof (eval_deps_sound G (fun s d => wait_top bound bound2 isp true G f s [] 0 d) deps [] [] (set_await st i true)
+                    (fun s d Sx => wait_top_sound G bound bound2 isp true f s [] 0 d Sx) Ss (VNil G)) as Hs.
       destruct (eval_deps _ deps [] (set_await st i true)) as [vals s2|e s2|] eqn:Ed.
       * destruct Hs as [Hv Hs2]. apply K.
         -- intros k v Hk. unfold get_settled, set_settled in Hk. simpl in Hk.
@@ -638,8 +657,8 @@ Proof.
         -- intros j E. destruct Ci as [_ Ci]. eapply Ci; eauto.
       * destruct e; try discriminate.
         destruct (eval_deps_raise G _ deps [] (set_await st i true) ECrash s2
-                    (fun s d => wait_top_flags bound true G f s [] d)
-                    (fun s d Sx => wait_top_sound G bound true f s [] d Sx) Ss Ed) as (d & s & Hin & Haw & Hss & Hr).
+                    (fun s d => wait_top_flags bound bound2 isp true G f s [] 0 d)
+                    (fun s d Sx => wait_top_sound G bound bound2 isp true f s [] 0 d Sx) Ss Ed) as (d & s & Hin & Haw & Hss & Hr).
         exfalso. eapply IH; [exact Hss| |exact Hr]. destruct Ci as [Ci _]. apply Ci. exact Hin.
       * discriminate.
   - discriminate.
